@@ -159,6 +159,63 @@ func runC07(it *Item, tier string, st *Stats) ([]Violation, uint64) {
 			for i := 0; i < nrand; i++ {
 				plans = append(plans, randomPlan(r, data))
 			}
+			if ci == 0 && n > 0 {
+				// Streams cut short by a read error: the same bytes followed
+				// by the same error, delivered in different ways (the error
+				// alone, or together with the last bytes; whole, byte by byte,
+				// random chunks) must give the same result.
+				ks := []int{n, r.Range(1, n), r.Range(1, n)}
+				if tier == "thorough" {
+					for i := 0; i < 6; i++ {
+						ks = append(ks, r.Range(1, n))
+					}
+				}
+				for _, k := range ks {
+					base := OneShot()
+					base.ErrAt = k
+					eref, _ := parseWith(cfg, data, base)
+					var eplans []Plan
+					wd := base
+					wd.ErrWithData, wd.Family = true, "read-error-with-last-data"
+					eplans = append(eplans, wd)
+					if k <= 4096 {
+						ob := oneByte(k)
+						ob.ErrAt, ob.Family = k, "read-error+one-byte"
+						eplans = append(eplans, ob)
+					}
+					for i := 0; i < 3; i++ {
+						rp := randomPlan(r, data[:k])
+						rp.EOFWithData = false
+						rp.ErrAt, rp.ErrWithData, rp.Family = k, r.Intn(2) == 0, "read-error+"+rp.Family
+						eplans = append(eplans, rp)
+					}
+					for _, plan := range eplans {
+						got, rd := parseWith(cfg, data, plan)
+						st.Evals++
+						st.Families.Add(plan.Family, 1)
+						st.Distinct[inputHash^cfgHash*31^plan.hash()*131] = struct{}{}
+						st.Faults.Add("read-error", 1)
+						if plan.ErrWithData {
+							st.Faults.Add("read-error-with-last-data", 1)
+						}
+						st.Faults.Add("short-read", int64(len(rd.Splits)))
+						if got.Err == errInjected {
+							st.Probes.Add("read-error-surfaced-as-the-parse-error", 1)
+						}
+						ok, class, detail := comparePR(eref, got)
+						logDigest(plan.hash())
+						if got.Err != nil {
+							logDigest(kit.Hash64([]byte(errString(got.Err))))
+						}
+						if !ok {
+							viols = append(viols, mkC07Violation(it, cfg, data, plan, "read-error:"+class, detail))
+							if len(viols) > 20 {
+								return viols, dg
+							}
+						}
+					}
+				}
+			}
 			for _, plan := range plans {
 				got, rd := parseWith(cfg, data, plan)
 				st.Evals++
@@ -220,11 +277,19 @@ func outcomeString(p PR) string {
 func replayC07(rep *Replay) *Violation {
 	data := rep.input()
 	ref := parseOneShot(rep.Cfg, data)
+	pre := ""
+	if rep.Plan.ErrAt >= 0 {
+		base := OneShot()
+		base.ErrAt = rep.Plan.ErrAt
+		ref, _ = parseWith(rep.Cfg, data, base)
+		pre = "read-error:"
+	}
 	got, _ := parseWith(rep.Cfg, data, rep.Plan)
 	ok, class, detail := comparePR(ref, got)
 	if ok {
 		return nil
 	}
+	class = pre + class
 	it := &Item{Idx: rep.Run, Seed: rep.Seed, Origin: fmt.Sprint(rep.Extra["origin"])}
 	v := mkC07Violation(it, rep.Cfg, data, rep.Plan, class, detail)
 	return &v
